@@ -106,6 +106,17 @@ def constructs():
         "in_list": (lambda n: [f"- item {S(n)}", "", f"  {S(n + 500)}"], "raw", None),
         "in_substitution": (lambda n: ["{{ rawsub }}", "", "inline {{ rawsub_inline }} x"], "raw", None),
         "in_div": (lambda n: [":::{tip}", S(n), ":::"], "raw", None),
+        # directives that parse their text themselves (inline markup inside literal / titled / tabular structures)
+        "in_parsed_literal": (lambda n: ["```{parsed-literal}", f"literal {S(n)} text", "```"], "raw", None),
+        "in_topic": (lambda n: ["```{topic} Title " + S(n + 500), f"body {S(n)}", "```"], "raw", None),
+        "in_sidebar": (lambda n: ["```{sidebar} Side title", f"body {S(n)}", "```"], "raw", None),
+        "in_admonition_title": (lambda n: ["```{admonition} Title " + S(n), "body", "```"], "raw", None),
+        "in_list_table": (lambda n: ["```{list-table}", "* - a", f"  - cell {S(n)}", "```"], "raw", None),
+        "in_figure_caption": (lambda n: ["```{figure} " + f"{D}/img.png", "", f"caption {S(n)}", "", f"legend {S(n + 500)}", "```"], "raw", None),
+        "in_rubric": (lambda n: ["```{rubric} Rubric " + S(n), "```"], "raw", None),
+        "in_epigraph": (lambda n: ["```{epigraph}", f"quote {S(n)}", "", f"-- attribution {S(n + 500)}", "```"], "raw", None),
+        "in_line_block": (lambda n: ["```{line-block}", f"line {S(n)}", "second", "```"], "raw", None),
+        "in_deflist_like": (lambda n: ["```{glossary-like}", "```", "", f"para {S(n)}"], "raw", None),
         "include_md": (lambda n: ["```{include} " + f"{D}/inc.md", "```"], "both", "FILESENT1"),
         "include_literal": (lambda n: ["```{include} " + f"{D}/inc.txt", ":literal:", "```"], "file", "FILESENT2"),
         "include_code": (lambda n: ["```{include} " + f"{D}/inc.py", ":code: python", "```"], "file", "FILESENT3"),
